@@ -104,24 +104,26 @@ Proof.
 Qed.
 
 (** * save_new_snapshot_pointer on an empty manager *)
-Theorem mgr_save_pointer_empty : forall m ptr,
+Theorem mgr_save_pointer_empty_floor : forall m ptr,
   mgr_rep m [] -> rec_ok ptr -> rec_nonempty ptr -> r_index ptr + 1 < U64MAX ->
   exists fs', mgr_rep (mgr_save_pointer m ptr) fs' /\
     m_limit (mgr_save_pointer m ptr) = m_limit m /\ m_pre_ptr (mgr_save_pointer m ptr) = m_pre_ptr m /\
-    files_vis fs' = [ptr] /\ files_first fs' = Some (r_index ptr) /\ files_end fs' = Some (r_index ptr + 1).
+    files_vis fs' = [ptr] /\ files_first fs' = Some (r_index ptr) /\ files_end fs' = Some (r_index ptr + 1) /\
+    floor_ok 0 fs'.
 Proof.
   intros m ptr R Hok Hne Hidx.
   unfold mgr_save_pointer, mgr_split_off. rewrite (rp_logs m [] R).
   cbn [map split_loop Nat.ltb Nat.leb set_logs m_logs].
-  set (m0 := mkMgr [] (m_saved m) (m_actors m) (m_disk m) (m_cur m) (m_pre_ptr m) (m_limit m)).
+  set (m0 := set_logs m []).
   assert (R0 : mgr_rep m0 []).
-  { destruct R. constructor; subst m0; cbn [m_logs m_saved m_actors m_disk m_cur m_limit map] in *; try assumption.
+  { destruct R. constructor; subst m0; cbn [set_logs m_logs m_saved m_actors m_disk m_cur m_limit map] in *; try assumption.
     - reflexivity.
     - congruence. }
-  destruct (mgr_write_rep m0 [] ptr R0 Hok Hne Hidx) as (m' & fs' & r & Hw & R' & Hl & Hp & Hpost).
+  destruct (mgr_write_rep m0 [] ptr R0 Hok Hne Hidx) as (m' & fs' & r & Hw & R' & Hl & Hp & Hpost & Hflo).
   rewrite Hw. cbn [fst]. exists fs'. split; [exact R'|]. split; [exact Hl|]. split; [exact Hp|].
   change (files_end []) with (@None N) in Hpost. destruct Hpost as (_ & Hv & Hf).
   split; [exact Hv|]. split; [exact Hf|].
+  split; [|apply Hflo; split; [constructor|exact I]].
   pose proof (files_vis_indexed fs' (rp_files m' fs' R') (proj1 (rp_chain m' fs' R'))) as Hi.
   destruct fs' as [|f rest]; [discriminate|]. destruct Hi as [_ He].
   cbn [files_first] in Hf. inversion Hf as [Hsp].
@@ -129,4 +131,350 @@ Proof.
   - specialize (He _ eq_refl). rewrite Hv, Hsp in He. unfold nlen in He. cbn [length] in He. f_equal. lia.
   - exfalso. destruct (list_snoc_cases (f :: rest)) as [H|(l0 & x & H)]; [discriminate|].
     rewrite H, last_opt_snoc in El. discriminate.
+Qed.
+
+Theorem mgr_save_pointer_empty : forall m ptr,
+  mgr_rep m [] -> rec_ok ptr -> rec_nonempty ptr -> r_index ptr + 1 < U64MAX ->
+  exists fs', mgr_rep (mgr_save_pointer m ptr) fs' /\
+    m_limit (mgr_save_pointer m ptr) = m_limit m /\ m_pre_ptr (mgr_save_pointer m ptr) = m_pre_ptr m /\
+    files_vis fs' = [ptr] /\ files_first fs' = Some (r_index ptr) /\ files_end fs' = Some (r_index ptr + 1).
+Proof.
+  intros m ptr R Hok Hne Hidx.
+  destruct (mgr_save_pointer_empty_floor m ptr R Hok Hne Hidx) as (fs' & H1 & H2 & H3 & H4 & H5 & H6 & _).
+  exists fs'. auto 10.
+Qed.
+
+(** * split-off at an index the log holds: the operational part *)
+(** [mfile] is an alias: keep the type argument of [map] the one [rp_logs] uses *)
+Local Notation mfst := (@map mfile lrange (@fst lrange cst)).
+(** the range / the canonical state of a file whose split-off is raised to [k] *)
+Definition gsp (g : lrange) (k : N) : lrange :=
+  mkRange (g_id g) (g_pre g) (g_start g) (g_count g) k (g_close g).
+Definition csp (c : cst) (k : N) : cst :=
+  mkCst (c_first c) (c_blocks c) (c_part c) (c_z c) (c_flen c) (c_hterm c) (c_da c) (c_lterm c)
+        (c_seek c) (c_dpos c) (N.max k (c_first c)).
+
+Lemma set_split_conc c k : set_split (conc c) k = conc (csp c k).
+Proof. reflexivity. Qed.
+
+Lemma wfc_csp c k : wfc c -> wfc (csp c k).
+Proof.
+  intros W. destruct W. constructor;
+    cbn [csp c_blocks c_part c_first c_z c_flen c_da c_seek c_dpos c_split]; try assumption. lia.
+Qed.
+
+Lemma csp_same c k : c_split c = N.max k (c_first c) -> csp c k = c.
+Proof. intros H. destruct c. unfold csp. cbn in *. subst. reflexivity. Qed.
+
+Lemma c_end_csp c k : c_end (csp c k) = c_end c.
+Proof. reflexivity. Qed.
+
+(** what the loop does to the files that are kept (none of them ends at or below [k]): the first
+    one whose recorded split-off is below [k] gets it raised, the others are left alone *)
+Fixpoint fsplit (L : list mfile) (k : N) : list mfile :=
+  match L with
+  | [] => []
+  | f :: rest => if g_split (fst f) <? k then (gsp (fst f) k, csp (snd f) k) :: rest
+                 else f :: fsplit rest k
+  end.
+
+Lemma fsplit_ids : forall L k, map f_id (fsplit L k) = map f_id L.
+Proof.
+  induction L as [|f L IH]; intros k; [reflexivity|]. cbn [fsplit].
+  destruct (g_split (fst f) <? k); [reflexivity|]. cbn [map]. rewrite IH. reflexivity.
+Qed.
+
+Definition same_meta (m m' : mgr) : Prop :=
+  m_logs m' = m_logs m /\ m_saved m' = m_saved m /\ m_cur m' = m_cur m /\
+  m_pre_ptr m' = m_pre_ptr m /\ m_limit m' = m_limit m.
+
+Fixpoint drops (m : mgr) (A : list mfile) : mgr :=
+  match A with [] => m | f :: A' => drops (drop_file m (f_id f)) A' end.
+
+Lemma drops_meta : forall A m, same_meta m (drops m A).
+Proof.
+  induction A as [|f A IH]; intros m; [repeat split|]. cbn [drops].
+  destruct (IH (drop_file m (f_id f))) as (H1 & H2 & H3 & H4 & H5). repeat split; assumption.
+Qed.
+
+Lemma drops_none : forall A m id, lookup id (m_actors m) = None -> lookup id (m_actors (drops m A)) = None.
+Proof.
+  induction A as [|f A IH]; intros m id H; [exact H|]. cbn [drops]. apply IH.
+  cbn [drop_file m_actors]. apply InstallLogProofs.lookup_remove_none. exact H.
+Qed.
+
+Lemma drops_in : forall A m id, In id (map f_id A) -> lookup id (m_actors (drops m A)) = None.
+Proof.
+  induction A as [|f A IH]; intros m id Hin; [contradiction|]. cbn [drops].
+  destruct (N.eq_dec id (f_id f)) as [->|Hne].
+  - apply drops_none. cbn [drop_file m_actors]. apply InstallLogProofs.lookup_remove_same.
+  - apply IH. destruct Hin as [H|H]; [congruence|exact H].
+Qed.
+
+Lemma drops_notin : forall A m id, ~ In id (map f_id A) -> lookup id (m_actors (drops m A)) = lookup id (m_actors m).
+Proof.
+  induction A as [|f A IH]; intros m id Hnin; [reflexivity|]. cbn [drops].
+  rewrite IH by (intros H; apply Hnin; right; exact H).
+  cbn [drop_file m_actors]. apply lookup_remove_other. intros H. apply Hnin. left. congruence.
+Qed.
+
+Lemma drops_disk : forall A m, (forall id, lookup id (m_disk m) = None) ->
+  forall id, lookup id (m_disk (drops m A)) = None.
+Proof.
+  induction A as [|f A IH]; intros m H id; [apply H|]. cbn [drops]. apply IH.
+  intros id'. cbn [drop_file m_disk]. apply lookup_remove_key_none. apply H.
+Qed.
+
+(** the files that end at or below [k] are dropped *)
+Lemma split_loop_drop k : forall (A : list mfile) m rest i,
+  Forall (fun f => ge_end k (fst f) = true) A ->
+  split_loop m (mfst A ++ rest) k i =
+  let '(m1, rest', i') := split_loop (drops m A) rest k (length A + i) in (m1, mfst A ++ rest', i').
+Proof.
+  induction A as [|f A IH]; intros m rest i Hall.
+  - cbn [map app drops length Nat.add]. destruct (split_loop m rest k i) as [[m1 r] i']. reflexivity.
+  - inversion Hall as [|? ? Hf Hall']; subst. cbn [map app split_loop]. rewrite Hf.
+    change (g_id (fst f)) with (f_id f). rewrite (IH _ rest (S i) Hall'). cbn [drops length].
+    replace (length A + S i)%nat with (S (length A) + i)%nat by lia.
+    destruct (split_loop (drops (drop_file m (f_id f)) A) rest k (S (length A) + i)) as [[m1 r] i']. reflexivity.
+Qed.
+
+Lemma lookup_amap_in_some : forall (X : list mfile) id, In id (map f_id X) -> exists s, lookup id (amap X) = Some s.
+Proof.
+  induction X as [|f X IH]; intros id Hin; [contradiction|]. cbn [amap map lookup].
+  destruct (id =? f_id f) eqn:E; [eexists; reflexivity|]. apply IH. destruct Hin as [H|H]; [lia|exact H].
+Qed.
+
+Lemma lookup_amap_cons (f : mfile) (X : list mfile) id :
+  lookup id (amap (f :: X)) = if id =? f_id f then Some (conc (snd f)) else lookup id (amap X).
+Proof. reflexivity. Qed.
+
+(** the files that are kept *)
+Lemma split_loop_keep k : forall (L : list mfile) m i,
+  Forall (fun f => ge_end k (fst f) = false) L ->
+  NoDup (map f_id L) ->
+  (forall f, In f L -> lookup (f_id f) (m_actors m) = Some (conc (snd f))) ->
+  exists m', split_loop m (mfst L) k i = (m', mfst (fsplit L k), i) /\ same_meta m m' /\
+    ((forall id, lookup id (m_disk m) = None) -> forall id, lookup id (m_disk m') = None) /\
+    (forall id, lookup id (m_actors m') =
+                match lookup id (amap (fsplit L k)) with Some s => Some s | None => lookup id (m_actors m) end).
+Proof.
+  induction L as [|[g c] L IH]; intros m i Hall Hnd Hact.
+  - exists m. cbn [map split_loop fsplit amap lookup]. split; [reflexivity|]. split; [repeat split|]. split; auto.
+  - inversion Hall as [|? ? Hg Hall']; subst. inversion Hnd as [|? ? Hnin Hnd']; subst. cbn [fst] in Hg.
+    cbn [map split_loop fst fsplit snd]. rewrite Hg.
+    destruct (g_split g <? k) eqn:E.
+    + pose proof (Hact (g, c) (or_introl eq_refl)) as Hl. unfold f_id in Hl. cbn [fst snd] in Hl. rewrite Hl.
+      eexists. split; [reflexivity|]. split; [repeat split|]. split.
+      * intros Hd id. cbn [set_actor m_disk]. apply lookup_remove_key_none. apply Hd.
+      * intros id. cbn [set_actor m_actors]. rewrite lookup_set_key, set_split_conc.
+        rewrite lookup_amap_cons. unfold f_id at 1. cbn [fst snd gsp g_id].
+        destruct (id =? g_id g) eqn:Eid; [reflexivity|].
+        destruct (lookup id (amap L)) as [s|] eqn:El; [|reflexivity].
+        apply lookup_amap_some in El. destruct El as (f & Hin & Hid & ->). rewrite <- Hid.
+        apply Hact. right. exact Hin.
+    + destruct (IH m i Hall' Hnd' (fun f Hin => Hact f (or_intror Hin))) as (m' & Heq & Hmeta & Hd & Ha).
+      rewrite Heq. exists m'. split; [reflexivity|]. split; [exact Hmeta|]. split; [exact Hd|].
+      intros id. rewrite Ha, lookup_amap_cons. unfold f_id at 1. cbn [fst snd].
+      destruct (id =? g_id g) eqn:Eid; [|reflexivity].
+      apply N.eqb_eq in Eid. subst id. rewrite lookup_amap_notin by (rewrite fsplit_ids; exact Hnin).
+      apply (Hact (g, c)). left. reflexivity.
+Qed.
+
+Lemma nodup_app_disjoint {A} (l1 l2 : list A) x : NoDup (l1 ++ l2) -> In x l1 -> In x l2 -> False.
+Proof.
+  induction l1 as [|a l1 IH]; intros Hnd H1 H2; [contradiction|]. cbn [app] in Hnd.
+  inversion Hnd as [|? ? Hnin Hnd']; subst. destruct H1 as [->|H1].
+  - apply Hnin. apply in_or_app. right. exact H2.
+  - exact (IH Hnd' H1 H2).
+Qed.
+
+Lemma nodup_app_r {A} (l1 l2 : list A) : NoDup (l1 ++ l2) -> NoDup l2.
+Proof. induction l1 as [|a l1 IH]; intros H; [exact H|]. inversion H; subst. apply IH. assumption. Qed.
+
+Lemma fsplit_length : forall L k, length (fsplit L k) = length L.
+Proof. intros L k. rewrite <- (map_length f_id), fsplit_ids, map_length. reflexivity. Qed.
+
+(** the manager after split-off at [k], when the files ending at or below [k] are a prefix [A] of
+    the catalogue and at least one file is kept ([m_saved] is not described: it is the old
+    catalogue when nothing was dropped) *)
+Lemma split_off_ptr m (A L : list mfile) k :
+  mgr_rep m (A ++ L) -> L <> [] ->
+  Forall (fun f => ge_end k (fst f) = true) A -> Forall (fun f => ge_end k (fst f) = false) L ->
+  m_logs (mgr_split_off m k) = mfst (fsplit L k) /\ m_cur (mgr_split_off m k) = m_cur m /\
+  m_pre_ptr (mgr_split_off m k) = m_pre_ptr m /\ m_limit (mgr_split_off m k) = m_limit m /\
+  (forall id, lookup id (m_actors (mgr_split_off m k)) = lookup id (amap (fsplit L k))) /\
+  (forall id, lookup id (m_disk (mgr_split_off m k)) = None).
+Proof.
+  intros R Hne HA HL.
+  pose proof (rep_nodup m _ R) as Hnd. rewrite map_app in Hnd.
+  assert (HactL : forall f, In f L -> lookup (f_id f) (m_actors (drops m A)) = Some (conc (snd f))).
+  { intros f Hin. rewrite drops_notin.
+    - apply (rep_actor m _ f R). apply in_or_app. right. exact Hin.
+    - intros Hin'. apply (nodup_app_disjoint _ _ (f_id f) Hnd Hin'). apply in_map. exact Hin. }
+  destruct (split_loop_keep k L (drops m A) (length A + 0)%nat HL (nodup_app_r _ _ Hnd) HactL)
+    as (m' & Heq & Hmeta & Hd & Ha).
+  assert (Hact' : forall id, lookup id (m_actors m') = lookup id (amap (fsplit L k))).
+  { intros id. rewrite Ha. destruct (lookup id (amap (fsplit L k))) eqn:E; [reflexivity|].
+    destruct (in_dec N.eq_dec id (map f_id A)) as [Hin|Hnin]; [apply drops_in; exact Hin|].
+    rewrite drops_notin by exact Hnin. rewrite (rp_actors m _ R). apply lookup_amap_notin.
+    rewrite map_app. intros Hin. apply in_app_or in Hin. destruct Hin as [Hin|Hin]; [contradiction|].
+    rewrite <- (fsplit_ids L k) in Hin. apply lookup_amap_in_some in Hin. destruct Hin as (s & Hs). congruence. }
+  assert (Hdisk' : forall id, lookup id (m_disk m') = None).
+  { apply Hd. apply drops_disk. apply (rp_disk m _ R). }
+  destruct Hmeta as (_ & _ & Hc & Hp & Hl).
+  destruct (drops_meta A m) as (_ & _ & Hc0 & Hp0 & Hl0).
+  assert (Hne' : fsplit L k <> []).
+  { intros H. apply (f_equal (@length mfile)) in H. rewrite fsplit_length in H. destruct L; [congruence|discriminate]. }
+  unfold mgr_split_off. rewrite (rp_logs m _ R), map_app, (split_loop_drop k A m (mfst L) 0%nat HA), Heq.
+  cbv beta iota zeta.
+  destruct A as [|a A'].
+  - cbn [length Nat.add Nat.ltb Nat.leb map app set_logs m_logs m_cur m_pre_ptr m_limit m_actors m_disk].
+    repeat split; try congruence; assumption.
+  - replace (0 <? length (a :: A') + 0)%nat with true by (cbn [length Nat.add]; reflexivity).
+    rewrite Nat.add_0_r, <- (map_length fst (a :: A')), skipn_length_app.
+    destruct (mfst (fsplit L k)) as [|g0 l0] eqn:El.
+    + exfalso. apply Hne'. destruct (fsplit L k); [reflexivity|discriminate].
+    + cbn [save_logs set_logs m_logs m_cur m_pre_ptr m_limit m_actors m_disk].
+      repeat split; try congruence; assumption.
+Qed.
+
+(** * the file list: where the loop stops *)
+Lemma ge_end_false k g : ge_end k g = false <-> k < g_end g.
+Proof. unfold ge_end, lt_end. destruct (k <? g_end g) eqn:E; cbn [negb]; split; intros H; try lia; congruence. Qed.
+
+Lemma ge_end_true k g : ge_end k g = true <-> g_end g <= k.
+Proof. unfold ge_end, lt_end. destruct (k <? g_end g) eqn:E; cbn [negb]; split; intros H; try lia; congruence. Qed.
+
+Lemma first_kept k : forall (fs : list mfile),
+  Exists (fun f => ge_end k (fst f) = false) fs ->
+  exists A f B, fs = A ++ f :: B /\ Forall (fun f => ge_end k (fst f) = true) A /\ ge_end k (fst f) = false.
+Proof.
+  induction fs as [|a fs IH]; intros H; [inversion H|].
+  destruct (ge_end k (fst a)) eqn:E.
+  - inversion H as [? ? H0|? ? H0]; subst; [congruence|].
+    destruct (IH H0) as (A & f & B & -> & HA & Hf). exists (a :: A), f, B.
+    split; [reflexivity|]. split; [constructor; assumption|exact Hf].
+  - exists [], a, fs. split; [reflexivity|]. split; [constructor|exact E].
+Qed.
+
+Lemma links_cons2 (f b : mfile) (B : list mfile) : links (f :: b :: B) <-> link f b /\ links (b :: B).
+Proof. split; intros H; exact H. Qed.
+
+(** behind a file that ends above [k], every file lies wholly above [k] *)
+Lemma tail_above k : forall (B : list mfile) f,
+  links (f :: B) -> Forall file_ok (f :: B) -> k < g_end (fst f) ->
+  Forall (fun f' => k < c_split (snd f') /\ k < g_end (fst f')) B.
+Proof.
+  induction B as [|b B IH]; intros f Hl Hok Hk; [constructor|].
+  apply links_cons2 in Hl. destruct Hl as [(Hsp & _ & Hcl) Hl'].
+  inversion Hok as [|? ? Hf Hok']; subst. inversion Hok' as [|? ? Hb _]; subst.
+  destruct f as [g c], b as [gb cb]. cbn [fst snd] in *.
+  rewrite (g_end_closed g c Hf Hcl) in Hk.
+  assert (Hkb : k < g_end gb).
+  { destruct Hb as (_ & _ & _ & Hle & Hmax & _). destruct (g_close gb) eqn:E.
+    - rewrite (g_end_closed gb cb) by (assumption || (inversion Hok'; assumption)). lia.
+    - rewrite (g_end_open gb E). lia. }
+  constructor; [split; [lia|exact Hkb]|]. apply (IH (gb, cb)); assumption.
+Qed.
+
+(** files that differ at most in the split-off their range records *)
+Definition lreq (f f' : mfile) : Prop :=
+  f_id f' = f_id f /\ g_close (fst f') = g_close (fst f) /\ c_end (snd f') = c_end (snd f).
+Definition req (f f' : mfile) : Prop :=
+  f_id f' = f_id f /\ g_close (fst f') = g_close (fst f) /\ snd f' = snd f.
+
+Lemma req_lreq f f' : req f f' -> lreq f f'.
+Proof. intros (H1 & H2 & H3). repeat split; congruence. Qed.
+
+Lemma req_refl : forall (l : list mfile), Forall2 req l l.
+Proof. induction l; constructor; [repeat split|assumption]. Qed.
+
+Lemma req_snd : forall (B B' : list mfile), Forall2 req B B' -> map snd B' = map snd B.
+Proof. induction 1 as [|b b' B B' (_ & _ & Hs) _ IH]; [reflexivity|]. cbn [map]. congruence. Qed.
+
+Lemma req_amap : forall (B B' : list mfile), Forall2 req B B' -> amap B' = amap B.
+Proof.
+  induction 1 as [|b b' B B' (Hi & _ & Hs) _ IH]; [reflexivity|]. cbn [amap map]. fold (amap B) (amap B').
+  rewrite Hi, Hs, IH. reflexivity.
+Qed.
+
+Lemma files_vis_snd (X Y : list mfile) : map snd X = map snd Y -> files_vis X = files_vis Y.
+Proof.
+  intros H. unfold files_vis.
+  rewrite <- (map_map snd vis X), <- (map_map snd vis Y), H. reflexivity.
+Qed.
+
+Lemma links_req : forall (B B' : list mfile), Forall2 req B B' ->
+  forall f f', lreq f f' -> links (f :: B) -> links (f' :: B').
+Proof.
+  induction 1 as [|b b' B B' Hb HB IH]; intros f f' Hf Hl; [cbn; auto|].
+  apply links_cons2 in Hl. destruct Hl as [(H1 & H2 & H3) Hl']. apply links_cons2. split.
+  - destruct Hf as (Fi & Fc & Fe), Hb as (Bi & Bc & Bs). unfold link. rewrite Bs, Fe, Fi, Bi, Fc. auto.
+  - apply (IH b b'); [apply req_lreq; exact Hb|exact Hl'].
+Qed.
+
+Lemma last_opt_rel {A} (R : A -> A -> Prop) : forall l l', Forall2 R l l' ->
+  match last_opt l, last_opt l' with Some x, Some x' => R x x' | None, None => True | _, _ => False end.
+Proof.
+  induction 1 as [|x x' l l' Hx Hl IH]; [exact I|].
+  inversion Hl as [|y y' l0 l0' Hy Hl0]; subst.
+  - exact Hx.
+  - rewrite !last_opt_cons2. exact IH.
+Qed.
+
+Lemma last_opt_app_cons {A} (l : list A) x r : last_opt (l ++ x :: r) = last_opt (x :: r).
+Proof.
+  destruct (list_snoc_cases (x :: r)) as [H|(l0 & z & H)]; [discriminate|].
+  rewrite H, app_assoc, !last_opt_snoc. reflexivity.
+Qed.
+
+(** raising the recorded split-off of a file that lies wholly above [k] changes nothing else *)
+Lemma fsplit_tail k : forall (B : list mfile),
+  Forall file_ok B -> Forall (fun f => k < c_split (snd f)) B ->
+  Forall2 req B (fsplit B k) /\ Forall file_ok (fsplit B k).
+Proof.
+  induction B as [|[g c] B IH]; intros Hok Hk; [split; constructor|].
+  inversion Hok as [|? ? Hf Hok']; subst. inversion Hk as [|? ? Hk1 Hk']; subst. cbn [snd] in Hk1.
+  cbn [fsplit fst snd]. destruct (g_split g <? k) eqn:E.
+  - destruct Hf as (W & Hfirst & Hsp & Hle & Hmax & Hcnt).
+    assert (Hsame : csp c k = c) by (apply csp_same; lia). rewrite Hsame.
+    split; constructor.
+    + repeat split.
+    + apply req_refl.
+    + unfold file_ok. cbn [gsp g_start g_split g_close g_count]. repeat split; try assumption. lia.
+    + exact Hok'.
+  - destruct (IH Hok' Hk') as [H1 H2]. split; constructor; try assumption. repeat split.
+Qed.
+
+(** the first kept file: its visible part now starts at [k] *)
+Lemma fsplit_head k g c (B : list mfile) :
+  Forall file_ok ((g, c) :: B) -> links ((g, c) :: B) ->
+  k < g_end g -> c_split c <= k -> k <= c_end c ->
+  exists g' c' B', fsplit ((g, c) :: B) k = (g', c') :: B' /\
+    file_ok (g', c') /\ c_split c' = k /\ c_first c' = c_first c /\ c_all c' = c_all c /\
+    g_id g' = g_id g /\ g_close g' = g_close g /\
+    Forall2 req B B' /\ Forall file_ok B'.
+Proof.
+  intros Hok Hl Hk Hsk Hke. inversion Hok as [|? ? Hf Hok']; subst.
+  destruct Hf as (W & Hfirst & Hsp & Hle & Hmax & Hcnt). pose proof (wf_split c W) as Hfs.
+  cbn [fsplit fst snd]. destruct (g_split g <? k) eqn:E.
+  - exists (gsp g k), (csp c k), B. split; [reflexivity|]. split; [|split; [|split; [|split; [|split; [|split; [|split]]]]]].
+    + unfold file_ok. change (c_end (csp c k)) with (c_end c). change (c_all (csp c k)) with (c_all c).
+      cbn [gsp csp g_start g_split g_close g_count c_first c_split].
+      split; [apply wfc_csp; exact W|]. repeat split; try assumption; try lia. unfold c_end in *. lia.
+    + cbn [csp c_split]. lia.
+    + reflexivity.
+    + reflexivity.
+    + reflexivity.
+    + reflexivity.
+    + apply req_refl.
+    + exact Hok'.
+  - pose proof (tail_above k B (g, c) Hl Hok Hk) as Ht.
+    destruct (fsplit_tail k B Hok') as [H1 H2].
+    { eapply Forall_impl; [|exact Ht]. cbn. intros a [Ha _]. exact Ha. }
+    exists g, c, (fsplit B k). split; [reflexivity|]. split; [|split; [|split; [|split; [|split; [|split; [|split]]]]]];
+      try reflexivity; try assumption.
+    + unfold file_ok. repeat split; assumption.
+    + lia.
 Qed.
